@@ -18,6 +18,8 @@ ownership   a delivered signal reaches the coroutine it was made for and is not
 livelock    the number of activations within one virtual time is bounded
 """
 import gc
+import os
+import sys
 import hashlib
 import heapq
 import threading
@@ -195,6 +197,43 @@ _installed = False
 _orig = {}
 
 
+#: Python-level function calls made within the activation that is running (all threads)
+_calls = [0]
+#: an activation of these small programs makes 10^1..10^4 calls; more than this many within one
+#: activation means that the kernel spins without ever suspending (a logical measure, not a
+#: wall-clock one)
+SPIN_LIMIT = 3000000
+
+
+def _install_spin_detector():
+    mon = getattr(sys, 'monitoring', None)
+    if mon is None:
+        return False
+    tool = mon.PROFILER_ID
+    try:
+        mon.use_tool_id(tool, 'usimmon-spin')
+    except ValueError:
+        return False
+    calls = _calls
+
+    def started(code, offset):
+        calls[0] += 1
+        if calls[0] > SPIN_LIMIT:
+            calls[0] = 0
+            sess = getattr(_tls, 'session', None)
+            if sess is not None and sess.armed and sess.stack:
+                sess.aborted = 'spin'
+                sess.violation(
+                    'kernel-spin-within-activation',
+                    'more than %d function calls within one activation at virtual time %r: the '
+                    'kernel spins without suspending (last code object: %s)' % (
+                        SPIN_LIMIT, sess.stack[-1].loop.time, code.co_qualname))
+                raise HarnessAbort('spin')
+    mon.register_callback(tool, mon.events.PY_START, started)
+    mon.set_events(tool, mon.events.PY_START)
+    return True
+
+
 def install():
     global _installed
     if _installed:
@@ -202,6 +241,8 @@ def install():
     if MISSING:
         raise RuntimeError('probe: Loop lacks %s' % MISSING)
     _installed = True
+    if os.environ.get('VERIF_SPIN', '1') != '0':
+        _install_spin_detector()
     # everything imported so far is permanent: keep it out of the collections that are forced
     # around every monitored run (makes them ~20x cheaper)
     gc.collect()
@@ -415,6 +456,7 @@ def _w_run_coroutine(self, target, signal=None):
                            'revoked %s delivered to %s' % (
                                type(signal).__name__, sess.label_of(target)))
         _check_owner(sess, target, signal)
+    _calls[0] = 0
     # ---- livelock / budget ----
     if st.in_step > sess.budget_per_step:
         sess.aborted = 'livelock'
